@@ -461,7 +461,7 @@ fn main() {
         }
         trees = dt;
     }
-    eprintln!("grid: {} link-free trees, {} trees with one link", linkfree, trees.len() - linkfree);
+    eprintln!("grid: {} link-free trees, {} trees with one link", linkfree, trees.len().saturating_sub(linkfree));
     // call alphabet
     let mut calls: Vec<Value> = vec![];
     for p in paths {
